@@ -76,3 +76,22 @@ class SharedTree:
 
 
 TARGETS["codebasin.preprocessor:MacroFunction.replace"] = SharedTree()
+
+
+# ---- recorded finding: the language a header OUTSIDE the code base is parsed in is that of its first includer ----------
+def _x_first_includer_language():
+    import os
+    files = {"proj/main.c": "#ifdef CONFIG_SMP\nint smp;\n#else\nint up;\nint up2;\n#endif\n", "proj/boot.S": "nop\n",
+             "generated/config.h": "#define CONFIG_SMP 1\n"}
+    with _R.tree(files) as root:
+        def e(f):
+            return {"file": os.path.join(root, f), "defines": [], "include_paths": [os.path.join(root, "generated")], "include_files": ["config.h"]}
+        cb = os.path.join(root, "proj")
+        ab = _R.used_lines(root, [e("proj/boot.S"), e("proj/main.c")], codebase_dir=cb).get("proj/main.c")
+        ba = _R.used_lines(root, [e("proj/main.c"), e("proj/boot.S")], codebase_dir=cb).get("proj/main.c")
+    return None if ab == ba else (f"the same lines of main.c for both command orders ({ba}: gcc -E gives `int smp;`)", f"[boot.S, main.c]: {ab}")
+
+
+TARGETS["codebasin.finder:ParserState.insert_file#recorded-findings"] = _R.Exhibits([
+    ("isolation:language-of-a-header-outside-the-code-base-is-its-first-includer's",
+     "generated/config.h forced into boot.S and main.c (gcc -I../generated -include config.h)", _x_first_includer_language)])
